@@ -101,13 +101,21 @@ class Interp:
                 if (isinstance(v, ast.Dict) and not v.keys) or (isinstance(v, ast.Call) and isinstance(v.func, ast.Name)
                                                                   and v.func.id == "dict" and not v.args):
                     cands.append(n.targets[0].attr)
+        # ... and mentioned in buildProtocol or in the factory methods it calls (how they are filled is C19's business:
+        # directly, through setdefault, through a table of registries that a loop walks)
         filled = set()
-        for n in ast.walk(bp.node):
-            if isinstance(n, ast.Assign):
-                for t in n.targets:
-                    if isinstance(t, ast.Subscript) and isinstance(t.value, ast.Attribute) \
-                            and isinstance(t.value.value, ast.Name) and t.value.value.id == "self":
-                        filled.add(t.value.attr)
+        todo, seen = [bp], set()
+        while todo:
+            fn = todo.pop()
+            if fn.qual in seen:
+                continue
+            seen.add(fn.qual)
+            for n in ast.walk(fn.node):
+                if isinstance(n, ast.Attribute) and isinstance(n.value, ast.Name) and n.value.id == "self":
+                    filled.add(n.attr)
+                    m = self.factory.methods.get(n.attr)
+                    if m is not None:
+                        todo.append(m)
         regs = [c for c in cands if c in filled]
         return regs
 
